@@ -56,7 +56,7 @@ PROPS = {
         ],
         "partial": ["the theorems are about the hand-written model of main.rs (Ezpz/Model/Cli.lean, CliMain.lean); the tie to the real program is the comparison of exit status and standard output of the release binary built from /repo with the model's rendering, by path and by stdin, on every generated text",
                     "cli_never_panics assumes the LU oracle does not panic (LinSolveTotal, as in C06); panics inside faer, clap argument handling, --image-path (visualize::save_png) and the two wall-clock performance lines are outside the model",
-                    "the text after the index on an unsatisfied-request line ('<i>: <constraint Debug>') and the sentences of warnings are masked on both sides of the differential: only the indices are compared; a CLI that printed the wrong constraint for the right index would not be noticed",
+                    "the text after the index on an unsatisfied-request line ('<i>: <constraint Debug>') and the sentences of warnings are not in the Lean model (Rust's Debug / Display of f64 are not modelled); they are compared, line by line, with what the library itself prints for the same request / warning (dump_c16 side file), so a CLI that printed the wrong constraint for the right index is caught on the real code, not by a theorem",
                     "the benchmark loop's unwrap is safe given determinism of the numeric kernels (C10): resolve_deterministic is about the model, a pure function"],
         "assumptions": ["fmt2 ({:.2} formatting) is in the model (Ezpz/Model/Fmt.lean) and proved to be round-half-even of the exact binary value to two decimals (FmtCorrect.lean: fmt2Core_nearest, fmt2Core_ties_even, fmt2Core_unique, fmt2_digits); that Rust's {:.2} does the same is checked against the real binary's output"],
         "rule": "problem texts: the repository's own test cases, generated valid texts (points, circles, arcs, all instruction forms), unsolvable and contradictory ones, and mutated / malformed ones; each is run through the release `ezpz` binary by path and by stdin, with and without --show-points; exit status, absence of panic and every stdout line are compared with the model's rendering of the library outcome computed in-process",
